@@ -62,7 +62,8 @@ def call_method(I, recv, name, args, kwargs):
         raise Unsupported(f'method {name} on a comprehension over a symbolic list')
     if type(recv).__name__ == 'SymList':
         from . import heap as H
-        if name == 'append' and args and type(args[0]).__name__ != 'SymObj' and not isinstance(args[0], (Obj,)):
+        if name == 'append' and args and type(args[0]).__name__ != 'SymObj' and not isinstance(args[0], (Obj,)) \
+                and not (isinstance(args[0], Opt) and type(args[0].val).__name__ == 'SymObj'):
             raise Unsupported('append of a non-object to a symbolic list')
         if name == 'insert':
             return H.lst_insert(I, recv, args[0], args[1])
@@ -361,13 +362,15 @@ def py_isinstance(I, v, cls):
         return any(issubclass(pyt, c) for c in classes)
     if type(v).__name__ == 'SymObj':
         cbt = getattr(v.schema, 'class_by_type', None)
-        if cbt is not None and not all(issubclass(v.schema.cls, c) for c in classes if True) :
+        if cbt is not None:
             # the dynamic class of a rule object is determined by its (immutable) type constant
             from . import heap as H
             tt = H.read_field(I, v, getattr(v.schema, 'class_field', 'type')).t
             hits = [tt == tv for tv, k in cbt.items() if any(issubclass(k, c) for c in classes)]
-            if any(issubclass(v.schema.cls, c) for c in classes) and len(hits) == len(cbt):
-                return True
+            if len(hits) == len(cbt):
+                return True  # every dynamic class the schema allows is an instance
+            if not hits:
+                return False
             r = z3_or(*hits)
             return r if isinstance(r, bool) else Sym('bool', r)
         if isinstance(v.schema.cls, type):
